@@ -53,27 +53,29 @@ func newSimConn(w *world, side int, name string) *simConn {
 }
 
 func (c *simConn) poke() {
+	vsimRaceOff()
 	select {
 	case c.notify <- struct{}{}:
 	default:
 	}
+	vsimRaceOn()
 }
 
 func (c *simConn) Read(b []byte) (int, error) {
 	c.w.onReadCall(c)
 	for {
-		c.mu.Lock()
+		vsimHLock(&c.mu)
 		if c.readErr != nil {
 			err := c.readErr
-			c.mu.Unlock()
+			vsimHUnlock(&c.mu)
 			return 0, err
 		}
 		if c.closed {
-			c.mu.Unlock()
+			vsimHUnlock(&c.mu)
 			return 0, errSimClosed
 		}
 		if c.rdExpired {
-			c.mu.Unlock()
+			vsimHUnlock(&c.mu)
 			return 0, os.ErrDeadlineExceeded
 		}
 		if len(c.rx) > 0 {
@@ -81,23 +83,25 @@ func (c *simConn) Read(b []byte) (int, error) {
 			c.rx = c.rx[1:]
 			c.nReads++
 			c.lastPkt = it.pkt
-			c.mu.Unlock()
+			vsimHUnlock(&c.mu)
 			n := copy(b, it.data)
 			c.w.onDelivered(c, it.data)
 			return n, nil
 		}
-		c.mu.Unlock()
+		vsimHUnlock(&c.mu)
 		h := vsimBlocking("conn.Read:" + c.name)
+		vsimRaceOff()
 		<-c.notify
+		vsimRaceOn()
 		vsimWoke(h)
 	}
 }
 
 func (c *simConn) Write(b []byte) (int, error) {
-	c.mu.Lock()
+	vsimHLock(&c.mu)
 	if c.closed {
 		c.nWriteAfterClose++
-		c.mu.Unlock()
+		vsimHUnlock(&c.mu)
 		c.w.onWriteAfterClose(c)
 		return 0, errSimClosed
 	}
@@ -107,11 +111,11 @@ func (c *simConn) Write(b []byte) (int, error) {
 			c.firstWriteErrSeq = c.w.nextSeq()
 			c.firstWriteErrAt = c.w.now()
 		}
-		c.mu.Unlock()
+		vsimHUnlock(&c.mu)
 		return 0, err
 	}
 	c.nWrites++
-	c.mu.Unlock()
+	vsimHUnlock(&c.mu)
 	p := make([]byte, len(b))
 	copy(p, b)
 	c.w.onSend(c, p)
@@ -119,10 +123,10 @@ func (c *simConn) Write(b []byte) (int, error) {
 }
 
 func (c *simConn) Close() error {
-	c.mu.Lock()
+	vsimHLock(&c.mu)
 	already := c.closed
 	c.closed = true
-	c.mu.Unlock()
+	vsimHUnlock(&c.mu)
 	if !already {
 		c.w.onConnClose(c)
 	}
@@ -138,59 +142,59 @@ func (c *simConn) SetDeadline(t time.Time) error {
 }
 
 func (c *simConn) SetReadDeadline(t time.Time) error {
-	c.mu.Lock()
+	vsimHLock(&c.mu)
 	if t.IsZero() {
 		c.rdExpired = false
-		c.mu.Unlock()
+		vsimHUnlock(&c.mu)
 		return nil
 	}
 	if !t.After(time.Now()) {
 		c.rdExpired = true
-		c.mu.Unlock()
+		vsimHUnlock(&c.mu)
 		c.poke()
 		return nil
 	}
-	c.mu.Unlock()
+	vsimHUnlock(&c.mu)
 	// future deadlines are not used by pion/sctp; implement with a plain timer
 	time.AfterFunc(time.Until(t), func() {
-		c.mu.Lock()
+		vsimHLock(&c.mu)
 		c.rdExpired = true
-		c.mu.Unlock()
+		vsimHUnlock(&c.mu)
 		c.poke()
 	})
 	return nil
 }
 
 func (c *simConn) SetWriteDeadline(t time.Time) error {
-	c.mu.Lock()
+	vsimHLock(&c.mu)
 	c.wrDeadline = t
-	c.mu.Unlock()
+	vsimHUnlock(&c.mu)
 	return nil
 }
 
 // injectReadError makes the next and all later Reads fail (transport failure).
 func (c *simConn) injectReadError(err error) {
-	c.mu.Lock()
+	vsimHLock(&c.mu)
 	c.readErr = err
-	c.mu.Unlock()
+	vsimHUnlock(&c.mu)
 	c.poke()
 }
 
 func (c *simConn) injectWriteError(err error) {
-	c.mu.Lock()
+	vsimHLock(&c.mu)
 	c.writeErr = err
-	c.mu.Unlock()
+	vsimHUnlock(&c.mu)
 }
 
 // deliverPkt appends a packet to the receive queue (driver only).
 func (c *simConn) deliverPkt(p []byte, pkt *wirePacket) {
-	c.mu.Lock()
+	vsimHLock(&c.mu)
 	if c.closed {
-		c.mu.Unlock()
+		vsimHUnlock(&c.mu)
 		return
 	}
 	c.rx = append(c.rx, rxItem{p, pkt})
-	c.mu.Unlock()
+	vsimHUnlock(&c.mu)
 	c.poke()
 }
 
@@ -274,10 +278,10 @@ type simNet struct {
 
 // mark: packet indexes of planned (parameter) faults and of faultLimit count from here.
 func (n *simNet) mark() {
-	n.mu.Lock()
+	vsimHLock(&n.mu)
 	n.marked = true
 	n.markIdx = [2]int{len(n.w.pkts[0]), len(n.w.pkts[1])}
-	n.mu.Unlock()
+	vsimHUnlock(&n.mu)
 }
 
 // paramPlan: fault placements passed as scenario parameters p<j>d / p<j>i / p<j>a
@@ -315,11 +319,11 @@ func (n *simNet) paramPlan(dir, rel int) planAction {
 
 // inject schedules raw bytes for delivery to a connection (adversary, stale packet replay).
 func (n *simNet) inject(at time.Duration, to *simConn, raw []byte) {
-	n.mu.Lock()
+	vsimHLock(&n.mu)
 	d := make([]byte, len(raw))
 	copy(d, raw)
 	n.push(at, to, d, nil)
-	n.mu.Unlock()
+	vsimHUnlock(&n.mu)
 }
 
 func newSimNet(w *world, seed uint64) *simNet {
@@ -338,8 +342,8 @@ func (n *simNet) push(at time.Duration, to *simConn, data []byte, pkt *wirePacke
 
 // send is called (by the token holder) for every packet written to a simConn.
 func (n *simNet) send(dir int, to *simConn, pkt *wirePacket) {
-	n.mu.Lock()
-	defer n.mu.Unlock()
+	vsimHLock(&n.mu)
+	defer vsimHUnlock(&n.mu)
 	st := &n.stats[dir]
 	st.Sent++
 	now := n.w.now()
@@ -492,8 +496,8 @@ func (n *simNet) send(dir int, to *simConn, pkt *wirePacket) {
 
 // flushSwap releases a packet held for a swap whose successor never came.
 func (n *simNet) flushSwap() {
-	n.mu.Lock()
-	defer n.mu.Unlock()
+	vsimHLock(&n.mu)
+	defer vsimHUnlock(&n.mu)
 	for dir := 0; dir < 2; dir++ {
 		if h := n.swapHeld[dir]; h != nil {
 			n.swapHeld[dir] = nil
@@ -503,8 +507,8 @@ func (n *simNet) flushSwap() {
 }
 
 func (n *simNet) nextTime() (time.Duration, bool) {
-	n.mu.Lock()
-	defer n.mu.Unlock()
+	vsimHLock(&n.mu)
+	defer vsimHUnlock(&n.mu)
 	if len(n.q) == 0 {
 		return 0, false
 	}
@@ -512,8 +516,8 @@ func (n *simNet) nextTime() (time.Duration, bool) {
 }
 
 func (n *simNet) popDue(now time.Duration) *netEvent {
-	n.mu.Lock()
-	defer n.mu.Unlock()
+	vsimHLock(&n.mu)
+	defer vsimHUnlock(&n.mu)
 	if len(n.q) == 0 || n.q[0].at > now {
 		return nil
 	}
@@ -521,8 +525,8 @@ func (n *simNet) popDue(now time.Duration) *netEvent {
 }
 
 func (n *simNet) inFlight() int {
-	n.mu.Lock()
-	defer n.mu.Unlock()
+	vsimHLock(&n.mu)
+	defer vsimHUnlock(&n.mu)
 	c := len(n.q)
 	for dir := 0; dir < 2; dir++ {
 		if n.swapHeld[dir] != nil {
@@ -534,12 +538,12 @@ func (n *simNet) inFlight() int {
 
 // heal switches every fault off (already scheduled deliveries still happen).
 func (n *simNet) heal() {
-	n.mu.Lock()
+	vsimHLock(&n.mu)
 	n.faultsOn = false
 	n.partitioned = [2]bool{}
 	n.plan[0] = map[int]planAction{}
 	n.plan[1] = map[int]planAction{}
 	n.filter = nil
-	n.mu.Unlock()
+	vsimHUnlock(&n.mu)
 	n.flushSwap()
 }
